@@ -36,6 +36,11 @@ func magBucket(x float64) string {
 
 // floatCase builds a one-print template from Soy source text.
 func (f *fam) floatCase(origin, use, expr string, fd map[string]float64, value float64, esc string) {
+	f.floatBody(origin, use, "{"+expr+"}", fd, value, esc)
+}
+
+// floatBody is floatCase with a whole template body.
+func (f *fam) floatBody(origin, use, body string, fd map[string]float64, value float64, esc string) {
 	var names []string
 	for k := range fd {
 		names = append(names, k)
@@ -46,7 +51,7 @@ func (f *fam) floatCase(origin, use, expr string, fd map[string]float64, value f
 	for _, n := range names {
 		b.WriteString(" * @param " + n + "\n")
 	}
-	b.WriteString(" */\n{template .m autoescape=\"" + esc + "\"}\n{" + expr + "}\n{/template}\n")
+	b.WriteString(" */\n{template .m autoescape=\"" + esc + "\"}\n" + body + "\n{/template}\n")
 	c := f.add("floats", fmt.Sprintf("float-format-%s,origin=%s,use=%s", magBucket(value), origin, use), placeholderProg())
 	c.FixedFiles = []core.File{{Name: "t.soy", Text: b.String()}}
 	c.FloatData = fd
@@ -99,10 +104,93 @@ func (f *fam) floats() {
 	f.floatCase("arith", "print", "$a - $b", map[string]float64{"a": 1e21, "b": 1}, 1e21-1, "false")
 	f.floatCase("arith", "print", "-$a", map[string]float64{"a": 2.5e-7}, -2.5e-7, "false")
 	f.floatCase("arith", "print", "max($a, $b)", map[string]float64{"a": 2.5e-7, "b": 1e-9}, 2.5e-7, "false")
-	// outside the subset by class: negative zero, non-finite
-	f.floatCase("data", "print", "$a", map[string]float64{"a": math.Copysign(0, -1)}, math.Copysign(0, -1), "false")
+	f.specialFloats()
+	// outside the subset by class: non-finite
 	f.floatCase("arith", "print", "$a / $b", map[string]float64{"a": 1, "b": 0}, math.Inf(1), "false")
 	f.floatCase("arith", "print", "$a * $b", map[string]float64{"a": 1e200, "b": 1e200}, math.Inf(1), "false")
+}
+
+// specialFloats: negative zero (as data and as the result of every operator
+// and function that can produce it), subnormals, the edges of the exactly
+// representable integers; printed, concatenated, compared, as truthiness, as
+// a map key, through round/floor/ceiling.
+func (f *fam) specialFloats() {
+	nz := math.Copysign(0, -1)
+	type src struct {
+		origin, expr string
+		fd           map[string]float64
+		v            float64
+	}
+	srcs := []src{
+		{"data", "$a", map[string]float64{"a": nz}, nz},
+		{"data", "$a", map[string]float64{"a": 0}, 0},
+		{"arith", "-$a", map[string]float64{"a": 0}, nz},
+		{"arith", "-$a", map[string]float64{"a": nz}, 0},
+		{"arith", "$a * -1", map[string]float64{"a": 0}, nz},
+		{"arith", "$a * $b", map[string]float64{"a": 0, "b": -2.5}, nz},
+		{"arith", "$a * $b", map[string]float64{"a": -1e-300, "b": 1e-300}, nz}, // underflow
+		{"arith", "$a / $b", map[string]float64{"a": 0, "b": -4}, nz},
+		{"arith", "$a / $b", map[string]float64{"a": -1e-300, "b": 1e300}, nz},
+		{"arith", "$a + $b", map[string]float64{"a": nz, "b": nz}, nz},
+		{"arith", "$a + $b", map[string]float64{"a": nz, "b": 0}, 0},
+		{"arith", "$a - $b", map[string]float64{"a": nz, "b": 0}, nz},
+		{"arith", "$a - $a", map[string]float64{"a": 2.5}, 0},
+		{"arith", "min($a, $b)", map[string]float64{"a": 0, "b": nz}, nz},
+		{"arith", "max($a, $b)", map[string]float64{"a": nz, "b": nz}, nz},
+		{"arith", "$c ? $a : $b", map[string]float64{"a": nz, "b": 1, "c": 1}, nz},
+		{"arith", "$a ?: 5", map[string]float64{"a": nz}, nz},
+		{"arith-literal", "0.0 * -1", nil, nz},
+		{"arith-literal", "-0.0", nil, nz},
+		{"arith-literal", "-(0.0)", nil, nz},
+		{"arith-literal", "0 * -1.5", nil, nz},
+		{"arith-literal", "-1 / 10000000 / 1000000000 * 0.0", nil, nz},
+		{"arith-literal", "0.0 / -3", nil, nz},
+		{"data", "$a", map[string]float64{"a": 5e-324}, 5e-324},
+		{"data", "$a", map[string]float64{"a": -2.2250738585072014e-308}, -2.2250738585072014e-308},
+		{"arith", "$a / 2", map[string]float64{"a": 5e-324}, 0},
+		{"arith", "-$a / 2", map[string]float64{"a": 5e-324}, nz},
+		{"arith", "$a + 1", map[string]float64{"a": 9007199254740992}, 9007199254740992},
+		{"arith", "$a - 1", map[string]float64{"a": -9007199254740992}, -9007199254740992},
+		{"arith", "$a + 2", map[string]float64{"a": 9007199254740992}, 9007199254740994},
+		{"arith", "$a * 2", map[string]float64{"a": 4503599627370496.5}, 9007199254740992},
+	}
+	for _, s := range srcs {
+		e := "(" + s.expr + ")"
+		f.floatCase(s.origin, "print", s.expr, s.fd, s.v, "false")
+		f.floatCase(s.origin, "print", s.expr, s.fd, s.v, "true")
+		f.floatCase(s.origin, "concat", "'v=' + "+e, s.fd, s.v, "false")
+		f.floatCase(s.origin, "concat", e+" + ''", s.fd, s.v, "false")
+		f.floatBody(s.origin, "concat", "{css "+s.expr+", z}", s.fd, s.v, "false")
+		f.floatBody(s.origin, "print", "{let $q: "+s.expr+" /}{$q}|{$q|escapeHtml}|{$q|truncate:5}", s.fd, s.v, "true")
+		for _, cmp := range []string{"== 0", "!= 0", "< 0", "<= 0", "> 0", ">= 0", "== 0.0", "== -0.0"} {
+			f.floatCase(s.origin, "compare", e+" "+cmp, s.fd, s.v, "false")
+		}
+		f.floatCase(s.origin, "truthy", e+" ? 'T' : 'F'", s.fd, s.v, "false")
+		f.floatCase(s.origin, "truthy", "not "+e, s.fd, s.v, "false")
+		f.floatBody(s.origin, "truthy", "{if "+s.expr+"}T{else}F{/if}", s.fd, s.v, "false")
+		f.floatCase(s.origin, "truthy", e+" and true ? 'T' : 'F'", s.fd, s.v, "false")
+		f.floatBody(s.origin, "truthy", "{switch "+s.expr+"}{case 0}zero{case 1}one{default}other{/switch}", s.fd, s.v, "false")
+		f.floatBody(s.origin, "mapkey", "{let $m: ['0': 'zero', '-0': 'negzero', '1': 'one'] /}{$m["+s.expr+"] ?: 'none'}", s.fd, s.v, "false")
+		for _, fn := range []string{"round", "floor", "ceiling"} {
+			f.floatCase(s.origin, "fn-int", fn+e, s.fd, s.v, "false")
+		}
+	}
+	// functions that round to zero from below: an integer 0 comes back
+	for _, x := range []float64{-0.4, -0.5, -0.25, -1e-9, -0.9999, 0.4} {
+		for _, fn := range []string{"round", "ceiling", "floor"} {
+			if fn == "round" && x == -0.5 {
+				continue // negative half: documented difference
+			}
+			fd := map[string]float64{"a": x}
+			v := map[string]func(float64) float64{"round": math.Round, "ceiling": math.Ceil, "floor": math.Floor}[fn](x)
+			f.floatCase("fn", "fn-int", fn+"($a)", fd, v, "false")
+			f.floatCase("fn", "concat", "'r=' + "+fn+"($a)", fd, v, "false")
+			f.floatCase("fn", "compare", fn+"($a) == 0", fd, v, "false")
+			f.floatCase("fn", "fn-int", "-"+fn+"($a)", fd, -v, "false")
+			f.floatCase("fn", "print", fn+"($a) * 1.5", fd, v*1.5, "false")
+		}
+		f.floatCase("fn", "print", "round($a, 1)", map[string]float64{"a": x / 100}, 0, "false")
+	}
 }
 
 // ---- namespaces -----------------------------------------------------------------
